@@ -37,6 +37,11 @@ def configs(rng, tier):
                      "CheckRuleFiles": rng.choice(["Prefs", "Prefs", "None", "All"])})
         if i % 4 == 3:
             cfgs[-1]["BlockSeparators"] = rng.choice([" ", ",", ".'", ", '"])
+        # the preferences that feed the engines' markup: a value that a rule table or a compiled command keeps from the time it was
+        # loaded shows when the value changes afterwards
+        cfgs[-1].update({"MathRate": rng.choice(["100", "80", "150"]), "PauseFactor": rng.choice(["100", "50", "300"]), "Rate": rng.choice(["180", "100"]),
+                         "Pitch": rng.choice(["0", "20"]), "CapitalLetters_Pitch": rng.choice(["0", "15"]), "CapitalLetters_Beep": rng.choice(["true", "false"]),
+                         "Bookmark": rng.choice(["false", "false", "true"])})
     return cfgs
 
 
